@@ -1056,15 +1056,25 @@ def _sign_zone_nsec(
         rdclass: dns.rdataclass.RdataClass,
         ttl: int,
         rrset_signer: RRsetSigner | None = None,
+        delegated: bool = False,
     ) -> None:
         """NSEC zone signer helper"""
         mandatory_types = set(
             [dns.rdatatype.RdataType.RRSIG, dns.rdatatype.RdataType.NSEC]
         )
+        # At a delegation point only NS and DS belong in the bitmap (RFC 4035, 2.3).
+        delegation_types = (dns.rdatatype.RdataType.NS, dns.rdatatype.RdataType.DS)
         node = txn.get_node(name)
         if node and next_secure:
             types = (
-                set([rdataset.rdtype for rdataset in node.rdatasets]) | mandatory_types
+                set(
+                    [
+                        rdataset.rdtype
+                        for rdataset in node.rdatasets
+                        if not delegated or rdataset.rdtype in delegation_types
+                    ]
+                )
+                | mandatory_types
             )
             windows = Bitmap.from_rdtypes(list(types))
             rrset = dns.rrset.from_rdata(
@@ -1084,6 +1094,7 @@ def _sign_zone_nsec(
     rrsig_ttl = zone.get_soa(txn).minimum
     delegation = None
     last_secure = None
+    last_delegated = False
 
     for name in sorted(txn.iterate_names()):
         if delegation and name.is_subdomain(delegation):
@@ -1112,12 +1123,28 @@ def _sign_zone_nsec(
 
         # We need "is not None" as the empty name is False because its length is 0.
         if last_secure is not None:
-            _txn_add_nsec(txn, last_secure, name, zone.rdclass, rrsig_ttl, rrset_signer)
+            _txn_add_nsec(
+                txn,
+                last_secure,
+                name,
+                zone.rdclass,
+                rrsig_ttl,
+                rrset_signer,
+                last_delegated,
+            )
         last_secure = name
+        # As above, the apex of a relativized zone (the empty name) is false.
+        last_delegated = bool(delegation)
 
     if last_secure is not None:
         _txn_add_nsec(
-            txn, last_secure, zone.origin, zone.rdclass, rrsig_ttl, rrset_signer
+            txn,
+            last_secure,
+            zone.origin,
+            zone.rdclass,
+            rrsig_ttl,
+            rrset_signer,
+            last_delegated,
         )
 
 
